@@ -21,6 +21,7 @@ fn gas_down(g: Option<u64>) -> i64 {
     match g { None => -1, Some(u64::MAX) => GAS_TOP, Some(x) => x as i64 }
 }
 const NAT: &str = "unat";
+const NATUP: &str = "UNAT"; // a second native denom that differs from NAT only in letter case
 const OUR_PORT: &str = "wasm.ics20";
 const REMOTE_PORT: &str = "transfer";
 
@@ -146,6 +147,7 @@ impl Run {
     fn denom_chain(&self, d: &str) -> String {
         match d {
             "nat" => NAT.to_string(),
+            "NAT" => NATUP.to_string(),
             "tok" => format!("cw20:{}", self.tok),
             other => other.to_string(),
         }
@@ -153,6 +155,8 @@ impl Run {
     fn denom_model(&self, d: &str) -> String {
         if d == NAT {
             "nat".into()
+        } else if d == NATUP {
+            "NAT".into()
         } else if d == format!("cw20:{}", self.tok) {
             "tok".into()
         } else {
@@ -176,7 +180,7 @@ impl Run {
         let rich = 1u128 << 100;
         w.app.init_modules(|router, _, storage| {
             for u in &users {
-                router.bank.init_balance(storage, u, vec![Coin::new(rich, NAT)]).unwrap();
+                router.bank.init_balance(storage, u, vec![Coin::new(rich, NATUP), Coin::new(rich, NAT)]).unwrap();
             }
         });
         let tmsg = cw20_base::msg::InstantiateMsg {
@@ -219,7 +223,7 @@ impl Run {
             let ics = run.ics.clone();
             // the old formats credited a channel only when a success acknowledgement arrived: packets still
             // in flight are escrowed but not in the books (migrate's v2 step adds them)
-            for d in ["nat", "tok"] {
+            for d in ["nat", "NAT", "tok"] {
                 let dc = run.denom_chain(d);
                 let inflight: u128 = run.pkts.iter().filter(|p| !p.done).map(|p| {
                     let x: cw20_ics20::ibc::Ics20Packet = from_json(&p.packet.data).unwrap();
@@ -284,7 +288,7 @@ impl Run {
         let mut chans = serde_json::Map::new();
         for ch in ["ch1", "ch2"] {
             let mut m = serde_json::Map::new();
-            for d in ["nat", "tok"] {
+            for d in ["nat", "NAT", "tok"] {
                 m.insert(d.into(), json!({"out":0,"sent":0}));
             }
             if self.channels.iter().any(|c| c == ch) {
@@ -297,6 +301,7 @@ impl Run {
             chans.insert(ch.into(), Value::Object(m));
         }
         let bal_nat = |a: &Addr| -> u128 { w.app.wrap().query_balance(a, NAT).unwrap().amount.u128() };
+        let bal_natup = |a: &Addr| -> u128 { w.app.wrap().query_balance(a, NATUP).unwrap().amount.u128() };
         let bal_tok = |a: &Addr| -> u128 {
             let r: cw20::BalanceResponse = w.smart(&self.tok, &cw20::Cw20QueryMsg::Balance { address: a.to_string() }).unwrap();
             r.balance.u128()
@@ -308,13 +313,14 @@ impl Run {
             // user balances are reported relative to their initial funding, so that they fit the model's integers
             let dn = bal_nat(&a) as i128 - rich as i128;
             let dt = bal_tok(&a) as i128 - rich as i128;
+            let du = bal_natup(&a) as i128 - rich as i128;
             let f = |x: i128| -> i64 {
                 let sgn = if x < 0 { -1 } else { 1 };
                 sgn * self.sc.down(x.unsigned_abs(), "user balance")
             };
-            ubal.insert(u.to_string(), json!({"nat": f(dn), "tok": f(dt)}));
+            ubal.insert(u.to_string(), json!({"nat": f(dn), "NAT": f(du), "tok": f(dt)}));
         }
-        let held = json!({"nat": self.sc.down(bal_nat(&self.ics), "held"), "tok": self.sc.down(bal_tok(&self.ics), "held")});
+        let held = json!({"nat": self.sc.down(bal_nat(&self.ics), "held"), "NAT": self.sc.down(bal_natup(&self.ics), "held"), "tok": self.sc.down(bal_tok(&self.ics), "held")});
         let (dgas, admin, listed, gas) = if self.legacy_pending == "v1" {
             (-1i64, "legacy".to_string(), false, -1i64)
         } else {
@@ -358,8 +364,8 @@ impl Run {
                     memo: opt_s(&args, "memo"),
                 };
                 let sender = self.w.addr(&by);
-                if d == "nat" {
-                    let funds = coins(amt.u128(), NAT);
+                if d == "nat" || d == "NAT" {
+                    let funds = coins(amt.u128(), if d == "nat" { NAT } else { NATUP });
                     call(&mut self.w, |w| w.app.execute_contract(sender, ics.clone(), &ExecuteMsg::Transfer(tm), &funds))
                 } else {
                     let m = cw20::Cw20ExecuteMsg::Send { contract: ics.to_string(), amount: amt, msg: to_json_binary(&tm).unwrap() };
@@ -371,7 +377,7 @@ impl Run {
                 let ch = s(&args, "ch");
                 let base = s(&args, "denom");
                 let base_chain = match base.as_str() {
-                    "nat" | "tok" => self.denom_chain(&base),
+                    "nat" | "NAT" | "tok" => self.denom_chain(&base),
                     _ => "ufoo".to_string(),
                 };
                 let other = if ch == "ch1" { "ch2" } else { "ch1" };
@@ -379,6 +385,9 @@ impl Run {
                     "ok" => format!("{REMOTE_PORT}/{}/{}", remote_of(&ch), base_chain),
                     "otherport" => format!("xfer/{}/{}", remote_of(&ch), base_chain),
                     "otherchan" => format!("{REMOTE_PORT}/{}/{}", remote_of(other), base_chain),
+                    // right prefix, but the base denomination has more path segments than the one we escrowed
+                    "suffix" => format!("{REMOTE_PORT}/{}/{}/lp", remote_of(&ch), base_chain),
+                    "infix" => format!("{REMOTE_PORT}/{}/factory/x/{}", remote_of(&ch), base_chain),
                     _ => base_chain.clone(), // "foreign": no prefix at all
                 };
                 let amount = Uint128::new(self.sc.up(n(&args, "amt")));
@@ -569,7 +578,7 @@ pub fn random_run(rng: &mut Rng, run_no: u64, len: usize, out: &mut Out) {
     for _ in 0..len {
         let chs: Vec<String> = run.channels.clone();
         let ch = if rng.chance(1, 15) { "ch9".to_string() } else { rng.pick(&chs).clone() };
-        let d = *rng.pick(&["nat", "tok", "tok"]);
+        let d = *rng.pick(&["nat", "nat", "NAT", "tok", "tok", "tok"]);
         let outst = obs["chan"].get(&ch).map(|c| c[d]["out"].as_i64().unwrap_or(0)).unwrap_or(0);
         let st = match rng.below(100) {
             0..=29 => {
@@ -580,7 +589,7 @@ pub fn random_run(rng: &mut Rng, run_no: u64, len: usize, out: &mut Out) {
                 json!({"act":"transfer","by":rng.pick(&USERS),"args":a})
             }
             30..=54 => {
-                let form = *rng.pick(&["ok", "ok", "ok", "ok", "otherport", "otherchan", "foreign"]);
+                let form = *rng.pick(&["ok", "ok", "ok", "ok", "ok", "otherport", "otherchan", "foreign", "suffix", "infix"]);
                 let dd = if rng.chance(1, 10) { "foo" } else { d };
                 let amt = match rng.below(5) { 0 => outst.max(0) as u64 + 1, 1 => outst.max(0) as u64, 2 => 0, _ => rng.range(0, outst.max(1) as u64) };
                 json!({"act":"recv","by":"relayer","args":{"ch":ch,"form":form,"denom":dd,"amt":amt,"to":rng.pick(&USERS)}})
